@@ -406,6 +406,10 @@ struct conf_node_inaddr *conf_register_inaddr(struct conf_node_object *parent, c
     cnode = conf_register_node(parent, name, CONF_INADDR, sizeof(*cnode));
     cnode->def_hostname = hostname;
     cnode->def_service = service;
+    if (!cnode->hostname)
+        cnode->hostname = xstrdup(hostname);
+    if (!cnode->service)
+        cnode->service = xstrdup(service);
     cnode->state = CA_UNKNOWN;
     return cnode;
 }
@@ -424,7 +428,7 @@ struct conf_node_string_list *conf_register_string_list(struct conf_node_object 
         string_vector_append(&cnode->def_value, xstrdup(arg));
     va_end(args);
 
-    if (!cnode->value.size)
+    if (!cnode->base.present)
         string_vector_copy(&cnode->value, &cnode->def_value);
     return cnode;
 }
@@ -436,7 +440,7 @@ struct conf_node_string_list *conf_register_string_list_sv(struct conf_node_obje
     cnode = conf_register_node(parent, name, CONF_STRING_LIST, sizeof(*cnode));
     string_vector_clear_int(&cnode->def_value);
     string_vector_copy(&cnode->def_value, sv);
-    if (!cnode->value.size)
+    if (!cnode->base.present)
         string_vector_copy(&cnode->value, &cnode->def_value);
     return cnode;
 }
